@@ -18,7 +18,7 @@ ALIASES = {
 }
 
 BUILTINS = ('len', 'range', 'abs', 'isinstance', 'enumerate', 'list', 'set', 'int', 'float', 'iter', 'str',
-            'print', 'tuple', 'min', 'max', 'sum', 'zip', 'object', 'type', 'hasattr', 'getattr', 'id', 'bool', 'sorted',
+            'print', 'tuple', 'min', 'max', 'sum', 'zip', 'object', 'type', 'hasattr', 'getattr', 'id', 'any', 'all', 'bool', 'sorted',
             'ValueError', 'TypeError', 'KeyError', 'NotImplementedError', 'AssertionError', 'ImportError',
             'DeprecationWarning', 'Exception', 'dict')
 
@@ -675,6 +675,56 @@ def b_set(ip, args, kwargs, node):
     return Seq(out, 'set')
 
 
+def b_anyall(which):
+    def g(ip, args, kwargs, node):
+        x = args[0]
+        if isinstance(x, Obj) and x.cls == 'dict':
+            x = Seq([Const(k) for k in x.attrs['items']], 'list')
+        if not isinstance(x, Seq):
+            raise Unsupported('%s() of %r' % (which, x), node)
+        for v in x.items:
+            t = ip.truth(v, node)
+            if which == 'any' and t:
+                return TRUE
+            if which == 'all' and not t:
+                return FALSE
+        return FALSE if which == 'any' else TRUE
+    return g
+
+
+def dict_fromkeys(ip, args, kwargs, node):
+    keys = args[0]
+    val = args[1] if len(args) > 1 else NONE
+    if isinstance(keys, Obj) and keys.cls == 'dict':
+        keys = Seq([Const(k) for k in keys.attrs['items']], 'list')
+    if not isinstance(keys, Seq):
+        raise Unsupported('dict.fromkeys of %r' % (keys,), node)
+    return Obj('dict', {'items': {_dict_key(k, node): val for k in keys.items}})
+
+
+def b_dict(ip, args, kwargs, node):
+    if not args and not kwargs:
+        return Obj('dict', {'items': {}})
+    if len(args) == 1 and isinstance(args[0], Obj) and args[0].cls == 'dict' and not kwargs:
+        return Obj('dict', {'items': dict(args[0].attrs['items'])})
+    if not args:
+        return Obj('dict', {'items': dict(kwargs)})
+    raise Unsupported('dict(%r)' % (args,), node)
+
+
+def b_iter(ip, args, kwargs, node):
+    """iter(x): only whether x is iterable matters to the package (Table.listify)"""
+    x = args[0]
+    if isinstance(x, (Seq, Types, Arr, View)) or (isinstance(x, Const) and isinstance(x.v, str)) or \
+            (isinstance(x, Obj) and (x.cls == 'dict' or ip.find_method(x, '__iter__') is not None)):
+        return Obj('iterator', {'of': x})
+    if isinstance(x, Num) and x.kind == 'array':
+        return Obj('iterator', {'of': x})
+    if isinstance(x, (Num, Const)) or (isinstance(x, Obj) and ip.find_method(x, '__iter__') is None):
+        raise Raised('TypeError', 'object is not iterable', ip.loc(node))
+    raise Unsupported('iter(%r)' % (x,), node)
+
+
 def b_id(ip, args, kwargs, node):
     x = args[0]
     if isinstance(x, Obj):
@@ -920,7 +970,8 @@ CALLS = {
     'itertools.combinations_with_replacement': it_combinations(True),
     'warnings.warn': w_warn,
     'builtins.len': b_len, 'builtins.range': b_range, 'builtins.abs': b_abs,
-    'builtins.isinstance': b_isinstance, 'builtins.hasattr': b_hasattr, 'builtins.id': b_id, 'builtins.set': b_set, 'builtins.getattr': b_getattr, 'builtins.enumerate': b_enumerate, 'builtins.list': b_list,
+    'builtins.isinstance': b_isinstance, 'builtins.hasattr': b_hasattr, 'builtins.iter': b_iter, 'builtins.any': b_anyall('any'), 'builtins.all': b_anyall('all'),
+    'builtins.dict.fromkeys': dict_fromkeys, 'builtins.dict': b_dict, 'builtins.id': b_id, 'builtins.set': b_set, 'builtins.getattr': b_getattr, 'builtins.enumerate': b_enumerate, 'builtins.list': b_list,
     'builtins.tuple': b_list,
     'builtins.int': b_int, 'builtins.float': b_float, 'builtins.print': b_noop,
 }
@@ -1082,5 +1133,87 @@ def dictcomp(ip, node, env):
     if isinstance(it, Types):
         return Obj('labeldict', {})
     if isinstance(it, Seq):
-        raise Unsupported('dict comprehension over a concrete sequence', node)
+        # concrete comprehension: a real (ordered) dict with constant keys
+        from .interp import Env
+        items = {}
+        for x in it.items:
+            e2 = Env(env)
+            ip.assign(g.target, x, e2, node)
+            if not all(ip.truth(ip.eval(c, e2), node) for c in g.ifs):
+                continue
+            k = ip.eval(node.key, e2)
+            if isinstance(k, Num) and is_const_num(k):
+                k = Const(num_value(k))
+            if not isinstance(k, Const):
+                raise Unsupported('dict comprehension with a non-constant key', node)
+            items[k.v] = ip.eval(node.value, e2)
+        return Obj('dict', {'items': items})
     raise Unsupported('dict comprehension over %r' % (it,), node)
+
+
+def listcomp(ip, node, env):
+    if len(node.generators) != 1:
+        raise Unsupported('nested list comprehension', node)
+    g = node.generators[0]
+    it = ip.eval(g.iter, env)
+    if isinstance(it, Obj):
+        m = ip.find_method(it, '__iter__')
+        if m is not None:
+            it = ip.call(m, [], {}, node)
+    if isinstance(it, Obj) and it.cls == 'dict':
+        it = Seq([Const(k) for k in it.attrs['items']], 'list')
+    if not isinstance(it, Seq):
+        raise Unsupported('list comprehension over %r' % (it,), node)
+    from .interp import Env
+    out = []
+    for x in it.items:
+        e2 = Env(env)
+        ip.assign(g.target, x, e2, node)
+        if all(ip.truth(ip.eval(c, e2), node) for c in g.ifs):
+            out.append(ip.eval(node.elt, e2))
+    return Seq(out, 'list')
+
+
+def _dict_key(k, node):
+    if isinstance(k, Num) and is_const_num(k):
+        return num_value(k)
+    if isinstance(k, Const):
+        return k.v
+    if isinstance(k, Seq) and all(isinstance(x, Const) for x in k.items):
+        return tuple(x.v for x in k.items)
+    raise Unsupported('dictionary key %r is not a constant' % (k,), node)
+
+
+def dict_getitem(ip, o, args, kwargs, node):
+    k = _dict_key(args[0], node)
+    if k in o.attrs['items']:
+        return o.attrs['items'][k]
+    raise Raised('KeyError', repr(k), ip.loc(node))
+
+
+def dict_setitem(ip, o, args, kwargs, node):
+    o.attrs['items'][_dict_key(args[0], node)] = args[1]
+    if o.origin is not None:
+        ip.event('write', o.origin, node, via='dict store')
+    return NONE
+
+
+def dict_get(ip, o, args, kwargs, node):
+    k = _dict_key(args[0], node)
+    return o.attrs['items'].get(k, args[1] if len(args) > 1 else NONE)
+
+
+def dict_values(ip, o, args, kwargs, node):
+    return Seq(list(o.attrs['items'].values()), 'list')
+
+
+def dict_keys(ip, o, args, kwargs, node):
+    return Seq([Const(k) for k in o.attrs['items']], 'list')
+
+
+def dict_items(ip, o, args, kwargs, node):
+    return Seq([Seq([Const(k), v]) for k, v in o.attrs['items'].items()], 'list')
+
+
+DICT_METHODS = {'__getitem__': dict_getitem, '__setitem__': dict_setitem, 'get': dict_get, 'values': dict_values,
+                'keys': dict_keys, 'items': dict_items, '__iter__': dict_keys}
